@@ -11,10 +11,13 @@ use tvmon::rng::Rng;
 
 #[derive(Clone, Debug)]
 pub struct LevState {
-    prev2: Vec<u8>,
-    cur: Vec<u8>,
+    prev2: [u8; LEV_MAX + 1],
+    cur: [u8; LEV_MAX + 1],
     last: u16,
 }
+
+/// longest Levenshtein pattern (keeps the state allocation-free)
+pub const LEV_MAX: usize = 40;
 
 #[derive(Clone, Debug)]
 pub enum St {
@@ -95,9 +98,13 @@ impl Automaton for Auto {
             Auto::Contains(..) => St::C(0),
             Auto::Lev { pat, d, .. } => {
                 let cap = *d + 1;
-                let cur: Vec<u8> = (0..=pat.len()).map(|j| (j.min(cap as usize)) as u8).collect();
+                assert!(pat.len() <= LEV_MAX, "c15 harness: lev pattern too long");
+                let mut cur = [cap; LEV_MAX + 1];
+                for (j, c) in cur.iter_mut().enumerate().take(pat.len() + 1) {
+                    *c = j.min(cap as usize) as u8;
+                }
                 St::L(LevState {
-                    prev2: vec![cap; pat.len() + 1],
+                    prev2: [cap; LEV_MAX + 1],
                     cur,
                     last: 256,
                 })
@@ -126,8 +133,9 @@ impl Automaton for Auto {
         match (self, st) {
             (Auto::Prefix(_), St::P(s)) => s.is_some(),
             (Auto::Contains(..), St::C(_)) => true,
-            (Auto::Lev { d, transp, .. }, St::L(s)) => {
-                s.cur.iter().any(|&v| v <= *d) || (*transp && s.prev2.iter().any(|&v| v < *d))
+            (Auto::Lev { pat, d, transp }, St::L(s)) => {
+                s.cur[..=pat.len()].iter().any(|&v| v <= *d)
+                    || (*transp && s.prev2[..=pat.len()].iter().any(|&v| v < *d))
             }
             (Auto::Regex(r), St::R(s)) => r.can_match(s),
             (Auto::Lazy(_), _) => true,
@@ -176,7 +184,7 @@ impl Automaton for Auto {
             (Auto::Lev { pat, d, transp }, St::L(s)) => {
                 let cap = *d + 1;
                 let m = pat.len();
-                let mut new = vec![0u8; m + 1];
+                let mut new = [cap; LEV_MAX + 1];
                 new[0] = (s.cur[0] + 1).min(cap);
                 for j in 1..=m {
                     let cost = u8::from(pat[j - 1] != b);
@@ -192,7 +200,7 @@ impl Automaton for Auto {
                     new[j] = v.min(cap);
                 }
                 St::L(LevState {
-                    prev2: s.cur.clone(),
+                    prev2: s.cur,
                     cur: new,
                     last: b as u16,
                 })
@@ -430,7 +438,7 @@ pub fn gen_keys(rng: &mut Rng, n: usize) -> (Vec<Vec<u8>>, String) {
         2 => {
             label = "shared-prefix";
             let p = *rng.pick(&[14usize, 15, 16, 17, 31, 100, 255, 256, 300, 5000]);
-            let p = if n > 2000 { p.min(300) } else { p };
+            let p = if n > 2000 { p.min(100) } else if n > 150 { p.min(300) } else { p };
             let prefix = if rng.bool() { rng.bytes(p) } else { vec![*rng.pick(&[0u8, b'a', 0xFF]); p] };
             let sl = *rng.pick(&[1usize, 3, 15, 16, 17, 40]);
             for _ in 0..attempts {
@@ -591,7 +599,7 @@ pub fn gen_automata(rng: &mut Rng, keys: &[Vec<u8>], count: usize) -> Vec<Auto> 
                     contains(kk[a..b].to_vec())
                 }
                 2 | 3 => {
-                    let mut p = k[..k.len().min(40)].to_vec();
+                    let mut p = k[..k.len().min(LEV_MAX - 4)].to_vec();
                     // perturb the pattern by up to 2 edits
                     for _ in 0..rng.below(3) {
                         p = near(&p, rng);
